@@ -49,7 +49,7 @@ m = {
         {"name": "harness", "path": "/verif/harness", "serves_properties": sorted(CLAIMED.keys()),
          "kind_free_text": "hand-written explicit-state / stateless explorers over the real rjson code (E1 prefix BFS over parser configurations x 256 bytes, choice explorer for handler/pool answers, E2 bounded-exhaustive documents, E3 call-history BFS to closure, E4 cooperative scheduler, E5 complete finite value domains), reference models cross-checked against encoding/json"},
         {"name": "instr", "path": "/verif/instr", "serves_properties": sorted(CLAIMED.keys()),
-         "kind_free_text": "go/ast instrumenter producing a go build -overlay from the working tree (machine EOF hooks, sync.Pool shim, package-variable access points)"},
+         "kind_free_text": "go/ast instrumenter producing a go build -overlay from the working tree (machine EOF hooks, sync.Pool / Mutex / Once and sync/atomic shims, package-variable access points)"},
     ],
     "checks": checks,
     "not_applicable": na,
